@@ -284,6 +284,10 @@ class Soap11(XmlDocument):
                 ctx.in_object = self.from_element(ctx, body_class,
                                                                 ctx.in_body_doc)
 
+                if ctx.in_object is None:
+                    # the message element itself was xsi:nil
+                    ctx.in_object = [None] * len(body_class._type_info)
+
         self.event_manager.fire_event('after_deserialize', ctx)
 
     def serialize(self, ctx, message):
